@@ -484,7 +484,7 @@ def async_schedules(kind, tv, calls, bound, handler_awaits, rep, stats):
     stats["distinct_orders"] |= orders
 
 
-def thread_schedules(kind, tv, calls, bound, rep, stats):
+def thread_schedules(kind, tv, calls, bound, rep, stats, reduce=True):
     cls = clients.bundled_class(kind)
     solo = {c[0]: solo_request(kind, tv, c) for c in calls}
     files = ("dependencies/base_client.py", "dependencies/base_client_open_telemetry.py")
@@ -508,7 +508,7 @@ def thread_schedules(kind, tv, calls, bound, rep, stats):
                 r = c.execute(QUERY, name, {k: build(s, ctx) for k, s in vspec}, **kwargs)
                 return c.get_data(r)
             return f
-        tr = vthreads.ThreadExplorerRun([body(cl) for cl in calls], choose, files, bound)
+        tr = vthreads.ThreadExplorerRun([body(cl) for cl in calls], choose, files, bound, reduce=reduce)
         res = tr.run()
         return seen, res, tr.points
 
@@ -516,6 +516,7 @@ def thread_schedules(kind, tv, calls, bound, rep, stats):
     for choices, sizes, (seen, res, points) in ex.run_all():
         stats["thread_schedules"] += 1
         stats["transitions"] += points
+        stats.setdefault("thread_orders", set()).add(tuple(op_of(s_) for s_ in seen))
         for call, (st, val) in zip(calls, res):
             if st != "ok" or val != {"op": call[0]}:
                 rep.violation("concurrent_call_result", [f"client:{kind}", "schedule:threads"], f"call {call[0]} got {st} {val!r}",
@@ -538,12 +539,14 @@ class _Collect:
 
 
 def thread_case(case):
-    kind, tv, a, b, bound = case
+    kind, tv, a, b, bound = case[:5]
+    reduce = case[5] if len(case) > 5 else True
     byname = {c[0]: c for c in CALLS}
     col = _Collect()
     stats = {"schedules": 0, "thread_schedules": 0, "transitions": 0, "capped": False, "distinct_orders": set(), "free_running_calls": 0}
-    thread_schedules(kind, tv, [byname[a], byname[b]], bound, col, stats)
+    thread_schedules(kind, tv, [byname[a], byname[b]], bound, col, stats, reduce=reduce)
     stats.pop("distinct_orders")
+    stats["thread_orders"] = sorted(stats.get("thread_orders", set()))
     return col.new, stats
 
 
@@ -618,8 +621,14 @@ def main(tier):
         async_schedules(kind, tv, list(CALLS[:3]), 2, 1 if tier == "quick" else 2, rep, stats)
         async_schedules(kind, tv, [byname["B"], byname["D"]], None, 1, rep, stats)
     tcases = [(kind, tv, a, b, 2 if tier == "quick" else 3) for kind, tv in (("sync", "none"), ("sync_ot", "stub")) for a, b in tpairs]
+    # soundness cross-check of the scheduling-point reduction: same pair, 1 preemption, every line a scheduling point vs reduced
+    tcases += [("sync", "none", "B", "D", 1, True), ("sync", "none", "B", "D", 1, False)]
     from mc import pool
-    for (kind, tv, a, b, bd), (st, r) in zip(tcases, pool.run_cases(thread_case, tcases, timeout=3000)):
+    por = {}
+    for tc_, (st, r) in zip(tcases, pool.run_cases(thread_case, tcases, timeout=3000)):
+        kind, tv, a, b, bd = tc_[:5]
+        if len(tc_) > 5 and st == "ok":
+            por[tc_[5]] = (r[1]["thread_schedules"], r[1]["thread_orders"], len(r[0]))
         if st != "ok":
             rep.violation("harness_" + st, [f"client:{kind}"], str(r)[:600], {"stage": "thread_schedules", "client": kind, "calls": [a, b]})
             continue
@@ -629,6 +638,8 @@ def main(tier):
         for k_ in ("thread_schedules", "transitions"):
             stats[k_] += sub_stats[k_]
         stats["capped"] = stats["capped"] or sub_stats["capped"]
+    if por.get(True) and por.get(False) and (por[True][1] != por[False][1] or por[True][2] != por[False][2]):
+        rep.violation("harness_por_unsound", [], f"reduced {por[True]} vs unreduced {por[False]}", {"stage": "por_crosscheck"})
     for kind, tv in (("sync", "none"), ("sync_ot", "stub")):
         free_running(kind, tv, rep, stats)
     rep.sample({"schedule_harness": "calls A(json) B(multipart, shared upload) C(model + headers) concurrently on one client", "observed_request_orders": sorted(map(list, stats["distinct_orders"]))[:6]})
@@ -648,6 +659,9 @@ def main(tier):
         "capped": stats["capped"], "exhaustive": not stats["capped"],
         "tree_feature_counts": tag_counts,
         "informational": INFO,
+        "por_crosscheck": {"reduced": {"schedules": por.get(True, (0,))[0], "violations": por.get(True, (0, 0, 0))[2]},
+                           "unreduced": {"schedules": por.get(False, (0,))[0], "violations": por.get(False, (0, 0, 0))[2]},
+                           "same_observed_request_orders": por.get(True, (0, 1))[1] == por.get(False, (0, 2))[1]},
     }, assumptions=["for trees that put a model inside a dict the exact variables JSON is not fixed by the statement (only upload rules and client agreement are checked)",
                     "httpx internals are atomic for the thread scheduler (scheduling points: lines of the bundled sync client files)",
                     "thread schedules bounded by preemptions, async K=3 by deviations; the bound completed is reported"])
